@@ -104,7 +104,13 @@ def same(kind, a, b):
 def run(ctx):
     drv = build.link_driver("attr_drv", [DRV], schema=build.schema_lib("kinds", open(kinds.SCHEMA).read()))
     L = 5 if ctx.quick else 6
-    ctxs = [(",7);", ","), (");", ")")] + ([] if ctx.quick else [(" ,7);", ","), ("  );", ")"), ("/* c */,7);", ",")])
+    # delimiter contexts: ',' and ')' directly, after blanks, and after a comment of spec/P21Sep.tla (every body in the
+    # thorough tier; in the quick tier the bodies whose end could be mistaken: runs of asterisks, a quote, a delimiter)
+    from vf import seps
+    coms = seps.load()["comments"][:22]
+    pick = [c for c in coms if c in ("/***/", "/* x **/", "/*,*/")] if ctx.quick else coms
+    ctxs = [(",7);", ","), (");", ")")] + ([] if ctx.quick else [(" ,7);", ","), ("  );", ")")]) + \
+           [(c + (",7);" if k % 2 == 0 else ");"), "," if k % 2 == 0 else ")") for k, c in enumerate(pick)]
     tails = {"int": "7", "real": "2.5", "str": "'x'", "bin": '"0"', "enum": ".RED.", "bool": ".T.", "log": ".U.", "ref": "#1"}
     wd = os.path.join(ctx.work, "s")
     shutil.rmtree(wd, ignore_errors=True)
